@@ -23,11 +23,25 @@ class E:
     def __init__(self, name, nout=1, deps=("x",)):
         self.name, self.nout, self.deps = name, nout, tuple(deps)
 
+    # Higher-order controls (ocp.control(order=k)) add helper states and a helper control behind the user's own: on the
+    # ORACLE side the state / control vectors are the full ones and the user's atoms are row selections of them.
+    # VIEW = None (no higher-order control) or {'x': rows, 'u': rows, 'w': rows} ; set by the oracle for its specification.
+    VIEW = None
+
     def on(self, get):
         """instantiate; get(atom) -> matrix"""
         args = []
+        view = E.VIEW if not isinstance(getattr(get, "__self__", None), Spec) else None     # Spec.atom resolves the user's symbols itself
         for d in self.deps:
-            v = get(d)
+            if view is None:
+                v = get(d)
+            else:
+                base = d[2] if isinstance(d, tuple) and d[0] == "at" else (d[1] if isinstance(d, tuple) else d)
+                src = "x" if base == "w" else base
+                key = d if not isinstance(d, tuple) else ((d[0], d[1], src) if d[0] == "at" else (d[0], src, d[2]))
+                v = get(key if isinstance(d, tuple) else src)
+                if v is not None and base in view:
+                    v = ca.MX(v)[view[base]] if view[base] else None
             if v is not None:
                 args.append(v)
         return ufun(self.name, self.nout, args)
@@ -65,6 +79,7 @@ class Spec:
         self.t0 = kw.pop("t0", ("fixed", 0.0))
         self.states = kw.pop("states", [2])                # sizes
         self.controls = kw.pop("controls", [1])
+        self.hoc = kw.pop("hoc", [])                       # higher-order controls: [(size, order >= 1), ...]  (atom 'w')
         self.algebraics = kw.pop("algebraics", [])
         self.params = kw.pop("params", {})                 # grid-kind -> sizes, e.g. {'':[1],'control':[1],'control+':[1]}
         self.variables = kw.pop("variables", {})
@@ -93,7 +108,7 @@ class Spec:
 
     def describe(self):
         d = dict(method=self.method, N=self.N, M=self.M, intg=self.intg, grid=self.grid, T=list(self.T), t0=list(self.t0),
-                 states=self.states, controls=self.controls, algebraics=self.algebraics, params=self.params,
+                 states=self.states, controls=self.controls, hoc=self.hoc, algebraics=self.algebraics, params=self.params,
                  variables=self.variables, discrete=self.discrete, scales={k: str(v) for k, v in self.scales.items()})
         if self.method == "DC":
             d.update(degree=self.degree, scheme=self.scheme)
@@ -148,8 +163,9 @@ class Spec:
         if isinstance(a, tuple) and a[0] == "at":
             inner = self.atom(a[2])
             return ocp.at_t0(inner) if a[1] == "t0" else ocp.at_tf(inner)
-        if a == "x": return ocp.x if S["x"] else None
-        if a == "u": return ocp.u if S["u"] else None
+        if a == "x": return (ocp.x if not self.hoc else ca.vertcat(*S["x"])) if S["x"] else None
+        if a == "u": return (ocp.u if not self.hoc else ca.vertcat(*S["u"])) if S["u"] else None
+        if a == "w": return ca.vertcat(*S["w"]) if S.get("w") else None
         if a == "z": return ocp.z if S["z"] else None
         if a == "xq": return ocp.xq
         if a == "t": return ocp.t
@@ -193,6 +209,7 @@ class Spec:
         S = self.sym
         S["x"] = [ocp.state(n, scale=self._scale("x", i, n)) for i, n in enumerate(self.states)]
         S["u"] = [ocp.control(n, scale=self._scale("u", i, n)) for i, n in enumerate(self.controls)]
+        S["w"] = [ocp.control(n, order=k, scale=self._scale("w", j, n)) for j, (n, k) in enumerate(self.hoc)]
         S["z"] = [ocp.algebraic(n, scale=self._scale("z", i, n)) for i, n in enumerate(self.algebraics)]
         for kind in ("", "control", "control+"):
             g, il = kind.rstrip("+"), kind.endswith("+")
@@ -337,6 +354,28 @@ class Spec:
             ocp.solver(self.solver)
         ocp.method(self.make_method())
         return ocp
+
+    # ---- effective layout with higher-order controls: rockit declares, per control(order=k), k helper STATES (the returned
+    # symbol first) and one helper CONTROL, all behind the user's own states / controls, all with the control's scale
+    def state_blocks(self):
+        """[(scale key, index, size)] of the full state vector"""
+        out = [("x", i, n) for i, n in enumerate(self.states)]
+        for j, (n, k) in enumerate(self.hoc):
+            out += [("w", j, n)] * k
+        return out
+
+    def control_blocks(self):
+        return [("u", i, n) for i, n in enumerate(self.controls)] + [("w", j, n) for j, (n, k) in enumerate(self.hoc)]
+
+    def view(self):
+        if not self.hoc:
+            return None
+        nxu, nuu = sum(self.states), sum(self.controls)
+        rows, off = [], nxu
+        for n, k in self.hoc:
+            rows += list(range(off, off + n))
+            off += n * k
+        return dict(x=list(range(nxu)), u=list(range(nuu)), w=rows)
 
     def n_params(self):
         return sum(len(self.params.get(k, [])) for k in ("", "control", "control+"))
